@@ -293,8 +293,23 @@ def tref (m : Match) (base : Nat) (inits : List (Name × String)) : TRef → Opt
   | .init k => (inits[k]?).map (·.1)
   | .none => none
 
+/-- order of fix 630be50: `sorted(used_opsets, key=(domain, version is not None, version or 0))` -/
+def usedLe (a b : String × Option Nat) : Bool :=
+  if a.1 != b.1 then a.1 < b.1
+  else match a.2, b.2 with
+    | none, _ => true
+    | some _, none => false
+    | some x, some y => x ≤ y
+
+def insertUsed (x : String × Option Nat) : List (String × Option Nat) → List (String × Option Nat)
+  | [] => [x]
+  | y :: r => if usedLe x y then x :: y :: r else y :: insertUsed x r
+
+/-- `TapeBuilder.used_opsets` (a set of (domain, version)), in the order `_update_opset_imports`
+iterates it since 630be50 -/
 def usedOf (ns : List TNode) : List (String × Option Nat) :=
-  ns.foldl (fun acc n => if acc.contains (n.domain, n.version) then acc else acc ++ [(n.domain, n.version)]) []
+  (ns.foldl (fun acc n => if acc.contains (n.domain, n.version) then acc else acc ++ [(n.domain, n.version)]) []).foldl
+    (fun acc x => insertUsed x acc) []
 
 /-- `ReplacementPatternFunction.get_replacement`: new nodes get ids `base, base+1, …`. -/
 def nominalInits (r : Repl) (call : Nat) : List (Name × String) :=
@@ -642,14 +657,15 @@ right after `node` before it was unlinked, so **the nodes of the replacement are
 a replacement that matches its own pattern is rewritten again.  The model keeps the current graph
 and the id of the node under the cursor; `successor` reads the link after the body ran. -/
 
-def successor (before after : List Node) (cur : Nat) : Option Nat :=
+def Graph.ids (g : Graph) : List Nat := g.nodes.map (·.id)
+
+/-- on node ids (object identities), before and after the body ran -/
+def successor (before after : List Nat) (cur : Nat) : Option Nat :=
   -- `cur` still linked: its successor in `after`; unlinked: first new node if any, else its old successor
-  match after.dropWhile (·.id != cur) with
-  | _ :: nxt :: _ => some nxt.id
+  match after.dropWhile (· != cur) with
+  | _ :: nxt :: _ => some nxt
   | [_] => none
-  | [] =>
-    let later := (before.dropWhile (·.id != cur)).drop 1
-    (later.find? fun n => after.any (·.id == n.id)).map (·.id)
+  | [] => ((before.dropWhile (· != cur)).drop 1).find? (after.contains ·)
 
 /-- apply `recurse` to every body of `node` in attribute order, threading the state -/
 def recurseBodies (recurse : PassSt → Graph → Except Err (PassSt × Graph)) :
@@ -678,9 +694,9 @@ def passLoop (rules : List Rule) (kind : Kind)
         let (st, lo, g1, next) := match step with
           | .applied st lo g' first =>
             -- new nodes sit right after the root; if the splice inserted nothing, fall back to the link
-            (st, lo, g', if g'.nodes.any (·.id == first) then some first else successor g.nodes g'.nodes cur)
-          | .noMatch st lo => (st, lo, g, successor g.nodes g.nodes cur)
-          | .skipped st lo => (st, lo, g, successor g.nodes g.nodes cur)
+            (st, lo, g', if g'.ids.contains first then some first else successor g.ids g'.ids cur)
+          | .noMatch st lo => (st, lo, g, successor g.ids g.ids cur)
+          | .skipped st lo => (st, lo, g, successor g.ids g.ids cur)
         -- "Apply rewrite rules to subgraphs of the node" — the node object visited, even if just removed
         match recurseBodies recurse st node.subs with
         | .error e => .error e
